@@ -191,3 +191,42 @@ def np_arange(eng, st, args, kwargs, line):
 @model("numba.prange")
 def nb_prange(eng, st, args, kwargs, line):
     return eng.call_builtin("prange", args, kwargs, st, line)
+
+
+@model("listmethod.append")
+def list_append(eng, st, args, kwargs, line):
+    args[0].items.append(args[1])
+    return val(st, NONE)
+
+
+@model("dictmethod.update")
+def dict_update(eng, st, args, kwargs, line):
+    d, other = args[0], args[1]
+    if not isinstance(other, VDict):
+        raise OutOfSubset(f"line {line}: dict.update({other!r})")
+    d.d.update(other.d)
+    return val(st, NONE)
+
+
+@model("dictmethod.copy")
+def dict_copy(eng, st, args, kwargs, line):
+    return val(st, VDict(dict(args[0].d)))
+
+
+@model("dictmethod.get")
+def dict_get(eng, st, args, kwargs, line):
+    d, k = args[0], args[1]
+    default = args[2] if len(args) > 2 else NONE
+    if isinstance(k, VStr) and k.s is not None:
+        return val(st, d.d.get(k.s, default))
+    raise OutOfSubset(f"line {line}: dict.get with symbolic key")
+
+
+@model("dictmethod.items")
+def dict_items(eng, st, args, kwargs, line):
+    return val(st, VList([VTuple([VStr(k) if isinstance(k, str) else VInt(k), v]) for k, v in args[0].d.items()]))
+
+
+@model("numpy.dtype")
+def np_dtype(eng, st, args, kwargs, line):
+    return val(st, VDtype(dtype_of(eng, args[0])))
